@@ -35,6 +35,10 @@ def pin_environment(scratch: str, hooks: bool = False) -> None:
     e["LC_ALL"] = "C.UTF-8"
     e["LANG"] = "C.UTF-8"
     e["TERM"] = "dumb"
+    e["PYTHONWARNINGS"] = "ignore"
+    import warnings
+
+    warnings.simplefilter("ignore")
     e["HOME"] = os.path.join(scratch, "home")
     e["XDG_CONFIG_HOME"] = os.path.join(scratch, "xdg-config")
     e["XDG_DATA_HOME"] = os.path.join(scratch, "xdg-data")
